@@ -359,7 +359,9 @@ func (d *diff) CompareDiff(ctx context.Context, dl Remote) (newIds, ourChangedId
 
 func (d *diff) compareResults(dctx *diffCtx, r Range, myRes, otherRes RangeResult) {
 	// both hash equals - do nothing
-	if bytes.Equal(myRes.Hash, otherRes.Hash) {
+	// an absent hash (an empty range, or a range that is not in the index) proves nothing:
+	// nil == nil would hide the elements one side lists for a range the other has empty
+	if len(myRes.Hash) != 0 && bytes.Equal(myRes.Hash, otherRes.Hash) {
 		return
 	}
 
